@@ -98,4 +98,36 @@ r_cub = s3.add(s4, method='cubic').value
 r_lin2 = s3.add(s4, method='linear').value
 fresh = Spectrum(np.array([400., 450, 520, 600, 700]), np.array([1., 3, 2, 5, 4]), 'nm').add(Spectrum(np.linspace(400, 700, 4), np.array([2., 1, 3, 2]), 'nm'), method='cubic').value
 b.check(np.array_equal(r_lin1, r_lin2) and np.allclose(r_cub, fresh) and not np.allclose(r_cub, r_lin1), {'repeated_calls_with_different_methods': True})
-emit([a, b])
+
+c = Bounded('C13::operand_history_and_sampling_of_disjoint_ranges', 'operands edited between operations (value setter, in-place write, resample, pad); disjoint ranges whose gap is smaller than both sample spacings, both operand orders, 4 unit pairs',
+            'each operation interpolates the operands as they are now; the common grid is sampled at the finer of the two operand spacings (the gap between ranges is not a spacing); commutative')
+for how in ('setter', 'in-place', 'resample', 'pad'):
+    with c.case({'edit': how}):
+        s5 = Spectrum(np.array([400., 450, 520, 600, 700]), np.array([1., 3, 2, 5, 4]), 'nm')
+        s6 = Spectrum(np.linspace(400, 700, 4), np.array([2., 1, 3, 2]), 'nm')
+        first = s5.add(s6).value.copy()
+        if how == 'setter':
+            s5.value = np.array([4., 1, 1, 2, 9])
+        elif how == 'in-place':
+            s5.value[:] = np.array([4., 1, 1, 2, 9])
+        elif how == 'resample':
+            s5.resample(np.array([400., 500, 600, 700]))
+        else:
+            s5.pad((350., 760.))
+        again = s5.add(s6)
+        grid, val = reference(s5.wave.copy(), s5.value.copy(), s6.wave.copy(), s6.value.copy(), 'add', 'min', 'linear', 0)
+        ok = again.wave.shape == grid.shape and np.allclose(again.wave, grid, rtol=1e-9)
+        inner = np.array([np.min(np.abs(np.array([s5.wave.min(), s5.wave.max(), s6.wave.min(), s6.wave.max()]) - g)) > 1e-6 for g in grid]) if ok else None
+        ok = ok and np.allclose(again.value[inner], val[inner], rtol=1e-7, atol=1e-9)
+        c.check(bool(ok), {'edit': how, 'first': first[:3].tolist(), 'again': again.value[:3].tolist()})
+for (ua, ub), order in itertools.product((('nm', 'nm'), ('um', 'nm'), ('m', 'angstrom'), ('angstrom', 'um')), ('lower-first', 'upper-first')):
+    with c.case({'disjoint_small_gap': (ua, ub), 'order': order}):
+        wa, wb = np.linspace(400, 500, 11), np.linspace(503.3, 603.3, 11) + np.array([0, 0.4] + [0] * 9)
+        va, vb = rng.uniform(0.5, 2, size=wa.size), rng.uniform(0.5, 2, size=wb.size)
+        A_, B_ = Spectrum(wa * 1e-9 / SI[ua], va, ua), Spectrum(wb * 1e-9 / SI[ub], vb, ub)
+        L_, R_ = (A_, B_) if order == 'lower-first' else (B_, A_)
+        res = L_.add(R_)
+        grid, val = (reference(wa, va, wb, vb, 'add', 'min', 'linear', 0) if order == 'lower-first' else reference(wb, vb, wa, va, 'add', 'min', 'linear', 0))
+        gw = res.wave * SI[res.waveunit] / 1e-9
+        c.check(bool(gw.shape == grid.shape and np.allclose(gw, grid, rtol=1e-9)), {'disjoint_small_gap': (ua, ub), 'order': order, 'samples': int(gw.size), 'expected': int(grid.size)})
+emit([a, b, c])
